@@ -279,6 +279,7 @@ class C10Model(H.Model):
         import subprocess
         import sys
         reqs = []
+        done = self.__dict__.setdefault('_precomputed', set())
         for ev in events:
             if ev[0] in ('next', 'drop', 'scramble', 'foreign', 'new_dwarf_info'):
                 continue
@@ -286,8 +287,11 @@ class C10Model(H.Model):
                 r = ('iter', ev[1], ev[2])
             else:
                 r = ('event', ev)
-            if r not in reqs:
+            if r not in reqs and repr(r) not in done:
                 reqs.append(r)
+                done.add(repr(r))
+        if not reqs:
+            return
         env = dict(os.environ)
         env['PYTHONPATH'] = ROOT
         p = subprocess.run([sys.executable, '-m', 'mcx.fresh_server'], input=pickle.dumps((os.environ.get('VERIF_REPO', '/repo'), self.data, _FOREIGN.get('data'), reqs)),
@@ -295,6 +299,7 @@ class C10Model(H.Model):
         if p.returncode != 0:
             raise core.HarnessError('fresh server failed')
         res = pickle.loads(p.stdout)
+        self.fresh_hangs = getattr(self, 'fresh_hangs', []) + [r for r, obs in zip(reqs, res) if obs == repr(('hang-or-crash',))]
         for r, obs in zip(reqs, res):
             if r[0] == 'event':
                 self._fresh[repr(r[1])] = obs
@@ -552,6 +557,13 @@ def explore_unit(system, pass_, depth, tier, deadline):
     fsecs, fmeta = payloads.make('m1' if system in ('M0', 'M0n') else 'm0', data[5] == 1, 32, 8 if data[4] == 2 else 4)
     _FOREIGN['data'] = elfwrap.wrap(fsecs, 64 if data[4] == 2 else 32, data[5] == 1, with_symbols=True, seed=77, addresses=fmeta['addresses'], machine=40, etype=4)[0]      # another machine and file type: per-file decoding tables must not be shared
     model = C10Model(system, data, events)
+    # a query that does not even terminate on a freshly opened object (in the pristine process) is a violation by itself: no exploration is needed to show it
+    model.precompute(events)
+    if getattr(model, 'fresh_hangs', None):
+        r0 = model.fresh_hangs[0]
+        ev0 = r0[1] if r0[0] == 'event' else ('open', r0[1], r0[2], 0)
+        return dict(states=1, transitions=len(model.fresh_hangs), depth_completed=0, saturated=False, per_level=[], capped=None, system=system, events=len(events), model=model,
+                    violations=[([ev0], ('terminates (a single query on a freshly opened object, pristine process)', 'still running after 15 s, or the interpreter died'))])
     if pass_ == 'C':
         alphabet, hs = interleaving_family(events, all_iters, pairs=not light)
         r = H.run_histories(model, alphabet, hs, normalise=False, deadline=deadline)
@@ -590,7 +602,7 @@ def run_c10(tier):
         agg['units'].append({'system': system, 'pass': pass_, 'depth_bound': depth, 'depth_completed': r['depth_completed'], 'saturated': r['saturated'], 'events': r['events'],
                              'states': r['states'], 'transitions': r['transitions'], 'per_level': r['per_level'], 'capped': r['capped'], 'skipped': r.get('skipped')})
         for hist, (exp, obs) in r['violations'][:6]:
-            mh = H.minimise_history(r['model'], hist, pass_ == 'B')
+            mh = hist if str(exp).startswith('terminates') else H.minimise_history(r['model'], hist, pass_ == 'B')      # (a non-terminating step is not replayed in this process)
             agg['violations'].append(dict(system=system, pass_=pass_, history=[list(e) for e in mh], expected=exp, observed=obs))
     return agg
 
@@ -629,6 +641,17 @@ def custom_replay(doc):
     _FOREIGN['data'] = elfwrap.wrap(fsecs, 64 if data[4] == 2 else 32, data[5] == 1, with_symbols=True, seed=77, addresses=fmeta['addresses'], machine=40, etype=4)[0]      # another machine and file type: per-file decoding tables must not be shared
     model = C10Model(system, data, [])
     model.precompute([e for e in hist])
-    w, res = H.replay(model, hist, doc['pass'] == 'B')
+    import signal
+
+    def _alarm(signum, frame):
+        raise H._Hang()
+    signal.signal(signal.SIGALRM, _alarm)
+    signal.setitimer(signal.ITIMER_REAL, 30.0)
+    try:
+        w, res = H.replay(model, hist, doc['pass'] == 'B')
+    except H._Hang:
+        return [('observation of ' + repr(hist[-1]), 'terminates', 'still running after 30 s')]
+    finally:
+        signal.setitimer(signal.ITIMER_REAL, 0)
     obs, exp = res[-1]
     return [] if obs == exp else [('observation of ' + repr(hist[-1]), exp, obs)]
